@@ -674,11 +674,11 @@ func (c *Ctx) IndexGuarded(fnName, base string) bool {
 		case *ssa.IndexAddr:
 			l := Linearize(x.Index).add(Lin{Coef: map[string]int64{lenT: 1}}, -1)
 			l.K++
-			need = Atom{LE, l}
+			need = Atom{Kind: LE, L: l}
 		case *ssa.Index:
 			l := Linearize(x.Index).add(Lin{Coef: map[string]int64{lenT: 1}}, -1)
 			l.K++
-			need = Atom{LE, l}
+			need = Atom{Kind: LE, L: l}
 		case *ssa.Slice:
 			b := x.High
 			if b == nil {
@@ -687,7 +687,7 @@ func (c *Ctx) IndexGuarded(fnName, base string) bool {
 			if b == nil {
 				continue
 			}
-			need = Atom{LE, Linearize(b).add(Lin{Coef: map[string]int64{lenT: 1}}, -1)}
+			need = Atom{Kind: LE, L: Linearize(b).add(Lin{Coef: map[string]int64{lenT: 1}}, -1)}
 		}
 		if !holds(FactsAtInstr(in), need, false) {
 			c.Fail(rule, construct, InstrPos(in), fmt.Sprintf("`%s` is not dominated by a test establishing %s; facts here: {%s}", DescribeInstr(in), need, factStrings(FactsAtInstr(in))))
